@@ -33,7 +33,7 @@ func canonLogs(ld plog.Logs, out map[string]int) {
 		for j := 0; j < rl.ScopeLogs().Len(); j++ {
 			sl := rl.ScopeLogs().At(j)
 			for k := 0; k < sl.LogRecords().Len(); k++ {
-				out["R{"+d(rl.Resource())+"}S{"+d(sl.Scope())+"}I{"+d(sl.LogRecords().At(k))+"}"]++
+				out["R{"+d(rl.Resource())+rl.SchemaUrl()+"}S{"+d(sl.Scope())+sl.SchemaUrl()+"}I{"+d(sl.LogRecords().At(k))+"}"]++
 			}
 		}
 	}
@@ -46,7 +46,7 @@ func canonMetrics(md pmetric.Metrics, out map[string]int) {
 			sm := rm.ScopeMetrics().At(j)
 			for k := 0; k < sm.Metrics().Len(); k++ {
 				m := sm.Metrics().At(k)
-				id := fmt.Sprint(m.Name(), "|", m.Unit(), "|", m.Description(), "|", m.Type())
+				id := fmt.Sprint(m.Name(), "|", m.Unit(), "|", m.Description(), "|", m.Type(), "|", m.Metadata().AsRaw())
 				var dps reflect.Value
 				switch m.Type() {
 				case pmetric.MetricTypeGauge: dps = reflect.ValueOf(m.Gauge().DataPoints())
@@ -59,7 +59,7 @@ func canonMetrics(md pmetric.Metrics, out map[string]int) {
 				n := int(dps.MethodByName("Len").Call(nil)[0].Int())
 				for q := 0; q < n; q++ {
 					dp := dps.MethodByName("At").Call([]reflect.Value{reflect.ValueOf(q)})[0]
-					out["R{"+d(rm.Resource())+"}S{"+d(sm.Scope())+"}M{"+id+"}I{"+d(dp.Interface())+"}"]++
+					out["R{"+d(rm.Resource())+rm.SchemaUrl()+"}S{"+d(sm.Scope())+sm.SchemaUrl()+"}M{"+id+"}I{"+d(dp.Interface())+"}"]++
 				}
 			}
 		}
